@@ -528,11 +528,20 @@ def run_form(pair: dict, args, kwargs) -> dict:
             res["numeric"] = "skipped (inputs pruned)"
             return res
         got = irtools.run_ort(model, feeds)
-        ok = len(got) == len(exp_leaves) and all(
-            np.asarray(g).shape == e.shape and np.allclose(np.asarray(g, dtype=np.float64) if e.dtype.kind != "b" else g,
-                                                            e.astype(np.float64) if e.dtype.kind != "b" else e,
-                                                            rtol=1e-3, atol=1e-5, equal_nan=True)
-            for g, e in zip(got, exp_leaves))
+
+        def flat(arrs):
+            out = []
+            for x in arrs:
+                x = np.asarray(x)
+                if x.dtype.kind == "c":          # exported as a trailing pair of reals
+                    x = np.stack([x.real, x.imag], axis=-1)
+                out.append(x.astype(np.float64).reshape(-1))
+            return np.concatenate(out) if out else np.zeros((0,))
+
+        g, e = flat(got), flat(exp_leaves)
+        # layout of the result container (tuple of scalars vs one vector, complex as pairs) is C05's
+        # business; here only the values are compared
+        ok = g.shape == e.shape and bool(np.allclose(g, e, rtol=1e-3, atol=1e-5, equal_nan=True))
         res["numeric"] = "agree" if ok else "DISAGREE"
         if not ok:
             res["ort"] = [np.asarray(g).reshape(-1)[:6].tolist() for g in got]
